@@ -29,7 +29,7 @@ def gen_case(rng):
     spec = {
         "name": "task0", "clients": clients, "mode": "iter", "unit": unit, "schedule": None,
         "warmup_iterations": rng.choice([0, 0, 1, 3]), "iterations": rng.choice([1, 2, 5, 12]),
-        "requests": reqs, "svc": {"mode": rng.choice(["const", "mixed"]), "base": rng.choice([0.01, 0.3, 1.0]), "err": "none", "seed": rng.randint(0, 1 << 30)},
+        "requests": reqs, "svc": {"mode": rng.choice(["const", "mixed"]), "base": rng.choice([0.01, 0.3, 1.0]), "err": rng.choice(["none", "none", "http"]), "seed": rng.randint(0, 1 << 30)},
     }
     return {"tasks": [spec], "pc_offset": rng.choice([0.0, 12345.678]), "poisson_seed": 0, "supplied": mode, "cut": rng.choice([1, 2, 3, 1000])}
 
@@ -57,10 +57,16 @@ def one_case(ctx, rng, explicit=None):
         per_client.setdefault(s["client"], []).append(s)
     feats = {"class-executor", "runner-supplied"}
     expected_by_time = []
+    failed_times = set()
     for c, lst in sorted(per_client.items()):
         script = spec["requests"][c % len(spec["requests"])]
         for k, s in enumerate(lst):
             want = script[k % len(script)].get("supplied_throughput")
+            failed = bool(s["meta"]) and s["meta"].get("success") is False
+            if failed:
+                # on-error=continue: the request failed, the runner returned nothing, the sample carries no throughput
+                want = None
+                feats.add("executor-failed-request-in-supplied-task")
             ctx.clause("runner-throughput-reaches-sample")
             if want is not None and want == 0:
                 feats.add("runner-supplied-zero")
@@ -69,7 +75,10 @@ def one_case(ctx, rng, explicit=None):
                 problems.append(("runner-throughput-reaches-sample", f"client {c} request #{k}: the runner returned throughput {want!r}, the sample carries {got!r}", None))
             if s["meta"] and "throughput" in s["meta"]:
                 problems.append(("runner-throughput-reaches-sample", f"client {c} request #{k}: 'throughput' was left in the request meta-data {s['meta']!r}", None))
-            expected_by_time.append((s["absolute_time"], want))
+            if failed:
+                failed_times.add(s["absolute_time"])
+            else:
+                expected_by_time.append((s["absolute_time"], want))
     if case["supplied"] == "all" and not problems and real_samples:
         # the real samples through the real calculator, cut into batches: one value per sample, equal to what the runner said, whatever the cut
         calc = driver.ThroughputCalculator()
@@ -80,11 +89,25 @@ def one_case(ctx, rng, explicit=None):
             for task, tuples in res.items():
                 out.extend(tuples)
         ctx.clause("passthrough-end-to-end")
-        got = sorted((t[0], t[3]) for t in out)
-        want = sorted(expected_by_time)
-        if len(got) != len(want) or any(g[1] != w[1] or abs(g[0] - w[0]) > 1e-6 for g, w in zip(got, want)):
-            problems.append(("passthrough-end-to-end", f"{len(real_samples)} samples with runner-supplied throughput in batches of {cut}: calculator emitted {[g[1] for g in got][:12]}, the runner supplied {[w[1] for w in want][:12]}", None))
-        units = {t[4] for t in out}
+        # everything the runner supplied exactly once and unchanged; a failed request may get no value or a non-negative number, nothing else is emitted
+        left = [(t[0], t[3], t[4]) for t in out]
+        missing = []
+        matched_units = set()
+        for at, want_v in sorted(expected_by_time, key=lambda x: x[0]):
+            cands = [n for n, g in enumerate(left) if abs(g[0] - at) <= 1e-6 and g[1] == want_v and type(g[1]) is type(want_v)]
+            # (a failed request finishing in the same instant may have got a number of its own, in the unit of failures: prefer the value in the runner's unit)
+            hit = next((n for n in cands if left[n][2] == f"{spec['unit']}/s"), cands[0] if cands else None)
+            if hit is None:
+                missing.append((at, want_v))
+            else:
+                matched_units.add(left[hit][2])
+                del left[hit]  # by position: (t, 0, u) == (t, 0.0, u) for list.remove
+        bad_extra = [g for g in left if not any(abs(g[0] - ft) <= 1e-6 for ft in failed_times) or g[1] is None or isinstance(g[1], bool) or not isinstance(g[1], (int, float)) or not g[1] >= 0]
+        if bad_extra:
+            problems.append(("passthrough-end-to-end", f"{len(real_samples)} samples ({len(failed_times)} failed requests) in batches of {cut}: the calculator emitted {bad_extra[0][1]!r} ({bad_extra[0][2]}) which no request supplied", None))
+        elif missing:
+            problems.append(("passthrough-end-to-end", f"{len(real_samples)} samples with runner-supplied throughput ({len(failed_times)} failed requests) in batches of {cut}: supplied but not emitted unchanged {[m[1] for m in missing][:12]}; emitted {[t[3] for t in out][:12]}", None))
+        units = matched_units
         if units - {f"{spec['unit']}/s"}:
             problems.append(("passthrough-end-to-end", f"unit of passed-through values {units}, runner unit {spec['unit']}", None))
     ctx.case(["exec", case], len(h.rec.samples) >= 2, feats)
